@@ -369,6 +369,12 @@ struct Transport::Impl
             {
               return; // M-3: don't grow a buffer no one will drain
             }
+            if (bufIt->second->overflow)
+            {
+              // Bytes were already dropped: appending later ones would hand the reader
+              // data from behind the gap before it sees BufferOverflow.
+              return;
+            }
             if (bufIt->second->data.size() + data.size() > config.maxSyncReceiveBuffer)
             {
               // Overflow: surface a distinct error to the parked waiter instead
